@@ -49,16 +49,19 @@ def qcs(x):
 
 
 def qcv(v):
-    return "(qvec %s)" % cqvec(list(v))
+    return "(qvec %s)" % cqvec([float(x) for x in np.ravel(np.asarray(v, dtype=float))])
 
 
 def qcm(m):
-    return "(qmat %s)" % cqmat([list(r) for r in m])
+    m = np.asarray(m, dtype=float)
+    if m.ndim != 2:
+        m = m.reshape(len(m), -1) if m.ndim > 2 else np.atleast_2d(m)
+    return "(qmat %s)" % cqmat([[float(x) for x in r] for r in m])
 
 
 def qcols(u):
     """time levels (columns of the (n, nt) array) as a list of vectors"""
-    u = np.asarray(u, dtype=float)
+    u = np.atleast_2d(np.asarray(u, dtype=float))
     return clist([qcv(u[:, k]) for k in range(u.shape[1])])
 
 
@@ -1208,90 +1211,118 @@ def case_gradient(cuqi, rng, have_g, have_j, steady):
 
 
 # ---------------- the shipped PDE test problems as users ----------------
-def cases_testproblems(cuqi, ctx, q):
-    out = []
-    rng = ctx.rng
-    # Poisson1D: steady; PDE form tabulated by calling the problem's own PDE_form independently
-    for dim, ogm in [(5, None), (6, None), (6, "sub")] + ([(9, None), (8, "sub")] if ctx.thorough else []):
-        rec = Recorder()
-        with Patches(rec), ScriptedRandom(seed=1):      # the default solver is bound when the PDE object is constructed
-            tp = cuqi.testproblem.Poisson1D(dim=dim, endpoint=1, observation_grid_map=(lambda x: x[1:-1]) if ogm else None)
-            pde = tp.model.pde
-            x = [rng.choice([1.0, 1.5, 2.0, 3.0]) for _ in range(dim)]
-            rec.reset()
-            o = model_output(outcome(lambda: tp.model.forward(np.array(x))))
-        A, b = pde.PDE_form(np.array(x))
-        cfg = {"steady": True, "solver": "default", "tag": 0, "gsol": np.asarray(pde.grid_sol).tolist(), "gobs": np.asarray(pde.grid_obs).tolist(),
-               "omap": ["none"], "tp": "Poisson1D", "dim": dim, "ogm": ogm}
-        fterm = ctform([(0.0, np.asarray(A, float), np.asarray(b, float), np.zeros(len(b)))])
-        expr = "check_ss_forward %s %s %s None %s %s" % (ss_cfg_term(cfg, rec, "12", fterm), qcs(1), qcs(0), qcv(x), cres(o, carr))
-        # oracle: residual of the problem's own assembled system, observation by restriction / own quadratic spline
-        fail = None
-        try:
-            sol = REAL_SOLVE(np.asarray(A, float), np.asarray(b, float))
-            gs, go = np.asarray(pde.grid_sol), np.asarray(pde.grid_obs)
-            xi = [idx_of(v, gs) for v in go]
-            E = np.array([sol[i] for i in xi]) if all(i is not None for i in xi) else spline_interp(gs, sol.reshape(-1, 1), 2, go)[:, 0]
-            if o[0] != "ok" or not arr_close(o[1], E, 1e-7):
-                fail = "Poisson1D(dim=%d).model.forward differs from solving its own assembled system and observing it" % dim
-        except Exception as e:
-            fail = "oracle failed: %r" % e
-        out.append(Case(expr=expr, meta={"kind": "tp_poisson", "dim": dim, "ogm": ogm, "x": x}, cell="testproblem/Poisson1D", impl_fail=fail,
-                        signature="Poisson1D.model" if fail else ""))
-    for dim, mt, ogm in [(3, 0.1, None), (4, 0.08, None), (5, 0.06, "sub")] + ([(6, 0.03, None), (7, 0.04, "sub")] if ctx.thorough else []):
-        with ScriptedRandom(seed=1):
-            tp = cuqi.testproblem.Heat1D(dim=dim, endpoint=1, max_time=mt, observation_grid_map=(lambda x: x[:-1]) if ogm else None)
+def case_tp_poisson(cuqi, q, dim, ogm, x):
+    """Poisson1D: steady; its PDE form is tabulated by calling the problem's own PDE_form independently"""
+    meta = {"kind": "tp_poisson", "dim": dim, "ogm": ogm, "x": x}
+    rec = Recorder()
+    with Patches(rec), ScriptedRandom(seed=1):      # the default solver is bound when the PDE object is constructed
+        r = outcome(lambda: cuqi.testproblem.Poisson1D(dim=dim, endpoint=1, observation_grid_map=(lambda g: g[1:-1]) if ogm else None))
+        if r[0] == "err":
+            return Case(expr="false", meta=meta, cell="testproblem/Poisson1D", impl_fail="Poisson1D(dim=%d) cannot be constructed: %s" % (dim, r[1]),
+                        signature="Poisson1D.model")
+        tp = r[1]
         pde = tp.model.pde
-        times = np.asarray(pde.time_steps, float).tolist()
+        rec.reset()
+        o = model_output(outcome(lambda: tp.model.forward(np.array(x))))
+    A, b = pde.PDE_form(np.array(x))
+    cfg = {"steady": True, "solver": "default", "tag": 0, "gsol": np.asarray(pde.grid_sol).tolist(), "gobs": np.asarray(pde.grid_obs).tolist(),
+           "omap": ["none"]}
+    fterm = ctform([(0.0, np.asarray(A, float), np.asarray(b, float), np.zeros(len(b)))])
+    expr = "check_ss_forward %s %s %s None %s %s" % (ss_cfg_term(cfg, rec, "12", fterm), qcs(1), qcs(0), qcv(x), cres(o, carr))
+    # oracle: residual of the problem's own assembled system, observation by restriction / own quadratic spline
+    fail = None
+    try:
+        sol = REAL_SOLVE(np.asarray(A, float), np.asarray(b, float))
+        gs, go = np.asarray(pde.grid_sol), np.asarray(pde.grid_obs)
+        xi = [idx_of(v, gs) for v in go]
+        E = np.array([sol[i] for i in xi]) if all(i is not None for i in xi) else spline_interp(gs, sol.reshape(-1, 1), 2, go)[:, 0]
+        if o[0] != "ok" or not arr_close(o[1], E, 1e-7):
+            fail = "Poisson1D(dim=%d).model.forward(%s) = %s differs from solving its own assembled system and observing it: %s" % (
+                dim, x, o[1] if o[0] == "err" else np.asarray(o[1]).tolist(), E.tolist())
+    except Exception as e:
+        fail = "oracle failed: %r" % e
+    return Case(expr=expr, meta=meta, cell="testproblem/Poisson1D", impl_fail=fail, signature="Poisson1D.model" if fail else "")
+
+
+def case_tp_heat(cuqi, q, dim, mt, ogm, x):
+    meta = {"kind": "tp_heat", "dim": dim, "max_time": mt, "ogm": ogm, "x": x}
+    with ScriptedRandom(seed=1):
+        r = outcome(lambda: cuqi.testproblem.Heat1D(dim=dim, endpoint=1, max_time=mt, observation_grid_map=(lambda g: g[:-1]) if ogm else None))
+    if r[0] == "err":
+        return Case(expr="false", meta=meta, cell="testproblem/Heat1D", impl_fail="Heat1D(dim=%d, max_time=%s) cannot be constructed: %s" % (dim, mt, r[1]),
+                    signature="Heat1D.model")
+    tp = r[1]
+    pde = tp.model.pde
+    times = np.asarray(pde.time_steps, float).tolist()
+    tb = []
+    for t in times:
+        A, b, c = pde.PDE_form(np.array(x), t)
+        tb.append((t, np.asarray(A, float), np.asarray(b, float), np.asarray(c, float)))
+    cfg = {"times": times, "method": pde.method, "solver": "default", "tag": 0, "gsol": np.asarray(pde.grid_sol).tolist(),
+           "gobs": np.asarray(pde.grid_obs).tolist(), "tobs": np.asarray(pde._time_obs, float).tolist(), "omap": ["none"]}
+    rec = Recorder()
+    with Patches(rec):
+        o = model_output(outcome(lambda: tp.model.forward(np.array(x))))
+    expr = "check_td_forward %s %s %s None %s %s" % (td_cfg_term(cfg, q, rec, "9", ctform(tb)), qcs(1), qcs(0), qcv(x), cres(o, carr))
+    fail = None
+    try:
+        u = np.array(tb[0][3], float)
+        U = [u]
+        for k in range(len(times) - 1):
+            dt = times[k + 1] - times[k]
+            u = u + dt * (tb[k][1] @ u + tb[k][2])
+            U.append(u)
+        U = np.array(U).T
+        gs, go = np.asarray(pde.grid_sol), np.asarray(pde.grid_obs)
+        xi = [idx_of(v, gs) for v in go]
+        if all(i is not None for i in xi):
+            E = U[xi, -1]
+        elif len(gs) >= 4 and len(times) >= 4:
+            E = spline_interp(times, spline_interp(gs, U, 3, go).T, 3, [times[-1]]).T[:, 0]
+        else:
+            E = None
+        if E is None:
+            if o[0] == "ok":
+                fail = "Heat1D forward returned a value where no interpolation exists"
+        elif o[0] != "ok" or not arr_close(o[1], E, 1e-7):
+            fail = "Heat1D(dim=%d, max_time=%s).model.forward(%s) = %s differs from forward Euler on its own PDE form + final-time observation: %s" % (
+                dim, mt, x, o[1] if o[0] == "err" else np.asarray(o[1]).tolist(), E.tolist())
+    except Exception as e:
+        fail = "oracle failed: %r" % e
+    return Case(expr=expr, meta=meta, cell="testproblem/Heat1D", impl_fail=fail, signature="Heat1D.model" if fail else "")
+
+
+def cases_testproblems(cuqi, ctx, q, cases):
+    rng = ctx.rng
+    for dim, ogm in [(5, None), (6, None), (6, "sub")] + ([(9, None), (8, "sub")] if ctx.thorough else []):
+        x = [rng.choice([1.0, 1.5, 2.0, 3.0]) for _ in range(dim)]
+        cases.add("testproblem/Poisson1D", "tp_poisson", lambda: case_tp_poisson(cuqi, q, dim, ogm, x), dim=dim, ogm=ogm, x=x)
+    for dim, mt, ogm in [(3, 0.1, None), (4, 0.08, None), (5, 0.08, "sub")] + ([(6, 0.03, None), (7, 0.04, "sub")] if ctx.thorough else []):
         x = [rng.choice([0.5, 1.0, 1.5, 2.0]) for _ in range(dim)]
-        tb = []
-        for t in times:
-            A, b, c = pde.PDE_form(np.array(x), t)
-            tb.append((t, np.asarray(A, float), np.asarray(b, float), np.asarray(c, float)))
-        cfg = {"times": times, "method": pde.method, "solver": "default", "tag": 0, "gsol": np.asarray(pde.grid_sol).tolist(),
-               "gobs": np.asarray(pde.grid_obs).tolist(), "tobs": np.asarray(pde._time_obs, float).tolist(), "omap": ["none"]}
-        rec = Recorder()
-        with Patches(rec):
-            o = model_output(outcome(lambda: tp.model.forward(np.array(x))))
-        expr = "check_td_forward %s %s %s None %s %s" % (td_cfg_term(cfg, q, rec, "9", ctform(tb)), qcs(1), qcs(0), qcv(x), cres(o, carr))
-        fail = None
-        try:
-            u = np.array(tb[0][3], float)
-            U = [u]
-            for k in range(len(times) - 1):
-                dt = times[k + 1] - times[k]
-                u = u + dt * (tb[k][1] @ u + tb[k][2])
-                U.append(u)
-            U = np.array(U).T
-            gs, go = np.asarray(pde.grid_sol), np.asarray(pde.grid_obs)
-            xi = [idx_of(v, gs) for v in go]
-            if all(i is not None for i in xi):
-                E = U[xi, -1]
-            elif len(gs) >= 4 and len(times) >= 4:
-                E = spline_interp(times, spline_interp(gs, U, 3, go).T, 3, [times[-1]]).T[:, 0]
-            else:
-                E = None
-            if E is None:
-                if o[0] == "ok":
-                    fail = "Heat1D forward returned a value where no interpolation exists"
-            elif o[0] != "ok" or not arr_close(o[1], E, 1e-7):
-                fail = "Heat1D(dim=%d).model.forward differs from forward Euler on its own PDE form + observation" % dim
-        except Exception as e:
-            fail = "oracle failed: %r" % e
-        if fail and o[0] == "err" and ogm and (dim < 4 or len(times) < 4):
-            fail = None
-        out.append(Case(expr=expr, meta={"kind": "tp_heat", "dim": dim, "max_time": mt, "ogm": ogm, "x": x}, cell="testproblem/Heat1D", impl_fail=fail,
-                        signature="Heat1D.model" if fail else ""))
-    return out
+        cases.add("testproblem/Heat1D", "tp_heat", lambda: case_tp_heat(cuqi, q, dim, mt, ogm, x), dim=dim, max_time=mt, ogm=ogm, x=x)
 
 
 # ------------------------------------------------------------------------------------------------
+class CaseList(list):
+    """cases; a driver/encoder exception on one input becomes a disagreeing case for that input (never a crash of the
+    whole run): bin/check then asks oracle() about exactly that input"""
+
+    def add(self, cell, kind, fn, **meta):
+        import traceback
+        try:
+            r = fn()
+            self.extend(r if isinstance(r, list) else [r])
+        except Exception:
+            m = dict(meta, kind=kind, harness_exception=traceback.format_exc()[-1200:])
+            self.append(Case(expr="false", meta=m, cell=cell, kind="DECISION"))
+
+
 def run(ctx):
     import cuqi
     rng = ctx.rng
     q, wit = tree_quirks(cuqi)
     ctx.note("tree state (true = defect present): %s" % q)
-    cases = []
+    cases = CaseList()
     nmax = ctx.n(6, 7)
     reps = ctx.n(1, 8)
 
@@ -1315,7 +1346,8 @@ def run(ctx):
                             p = gen_p(rng, npar)
                             if sk.startswith("fake") or method == "forward_euler" or well_conditioned(cfg, p):
                                 break
-                        cases.append(case_td_direct(cuqi, cfg, p, q, "td/solve/%s/%s/%s/%s" % (method, tk, sk, role), trivial=(tk == "single")))
+                        cell = "td/solve/%s/%s/%s/%s" % (method, tk, sk, role)
+                        cases.add(cell, "td_direct", lambda: case_td_direct(cuqi, cfg, p, q, cell, trivial=(tk == "single")), cfg=cfg, p=p)
 
     # ---- 2. time-dependent, direct API: observation lattice (grid relation x time_obs form x map) ---------------------------
     omaps = ["none", "square", "scale", "first", "from", "mat"]
@@ -1336,7 +1368,8 @@ def run(ctx):
                 om = fix_omap(rng, gen_omap(rng, omaps[k % len(omaps)], n), nrows)
                 cfg = {"af": gen_af(rng, n, npar, "all", True), "times": times, "method": method, "solver": sk, "tag": 0, "gsol": gs, "gobs": go,
                        "tobs": tobs, "tobs_as_array": as_arr, "omap": om}
-                cases.append(case_td_direct(cuqi, cfg, gen_p(rng, npar), q, "td/observe/%s/%s/%s" % (rel, tkind, om[0])))
+                cell, p = "td/observe/%s/%s/%s" % (rel, tkind, om[0]), gen_p(rng, npar)
+                cases.add(cell, "td_direct", lambda: case_td_direct(cuqi, cfg, p, q, cell), cfg=cfg, p=p)
         # small grids / few levels where a spline cannot exist, and extra observation maps on every branch
         for rel in ["sol_only", "subgrid", "offnodes"]:
             for tkind in ["final", "all", "arr_nodes", "arr_offnodes", "arr_one_node"]:
@@ -1350,7 +1383,8 @@ def run(ctx):
                     om = fix_omap(rng, gen_omap(rng, om0, n), n if go is None else len(go))
                     cfg = {"af": gen_af(rng, n, 2, "ic", False), "times": times, "method": "forward_euler", "solver": "default", "tag": 0,
                            "gsol": gs, "gobs": go, "tobs": tobs, "tobs_as_array": as_arr, "omap": om}
-                    cases.append(case_td_direct(cuqi, cfg, gen_p(rng, 2), q, "td/observe-small/%s/%s/%s" % (rel, tkind, om0)))
+                    cell, p = "td/observe-small/%s/%s/%s" % (rel, tkind, om0), gen_p(rng, 2)
+                    cases.add(cell, "td_direct", lambda: case_td_direct(cuqi, cfg, p, q, cell), cfg=cfg, p=p)
 
     # ---- 3. method strings, malformed systems, solve before assemble -----------------------------------------------------
     for _ in range(reps):
@@ -1359,7 +1393,8 @@ def run(ctx):
                 n = rng.randint(3, 5)
                 cfg = {"af": gen_af(rng, n, 2, "ic", True), "times": gen_times(rng, "uniform", nt), "method": mstr, "solver": "fake_tuple", "tag": 7,
                        "gsol": None, "gobs": None, "tobs": "final", "omap": ["none"]}
-                cases.append(case_td_direct(cuqi, cfg, gen_p(rng, 2), q, "td/method-string/%s" % cmethod(mstr), trivial=(nt == 1)))
+                cell, p = "td/method-string/%s" % cmethod(mstr), gen_p(rng, 2)
+                cases.add(cell, "td_direct", lambda: case_td_direct(cuqi, cfg, p, q, cell, trivial=(nt == 1)), cfg=cfg, p=p)
         for method in ["forward_euler", "backward_euler"]:
             n = rng.randint(3, 5)
             af = gen_af(rng, n, 2, "ic", False)
@@ -1374,7 +1409,8 @@ def run(ctx):
                 bad["At"] = [[0] * m for _ in range(m)]
             cfg = {"af": bad, "times": gen_times(rng, "uniform", 3), "method": method, "solver": "fake", "tag": 0, "gsol": None, "gobs": None,
                    "tobs": "final", "omap": ["none"], "malformed": True}
-            cases.append(case_td_direct(cuqi, cfg, gen_p(rng, 2), q, "td/malformed-system/%s" % method))
+            cell, p = "td/malformed-system/%s" % method, gen_p(rng, 2)
+            cases.add(cell, "td_direct", lambda: case_td_direct(cuqi, cfg, p, q, cell), cfg=cfg, p=p)
 
     # ---- 4. PDEModel.forward on time-dependent PDEs: sequences of calls on one object, domain geometry map ------------------
     for _ in range(reps):
@@ -1396,7 +1432,8 @@ def run(ctx):
                         plist = [gen_p(rng, npar) for _ in range(3)]
                         if sk.startswith("fake") or method == "forward_euler" or all(well_conditioned(cfg, [a * v + d for v in x]) for x in plist):
                             break
-                    cases += cases_td_forward(cuqi, cfg, plist, a, d, q, "td/forward/%s/%s/%s/%s/%s" % (method, sk, rel, tkind, role))
+                    cell = "td/forward/%s/%s/%s/%s/%s" % (method, sk, rel, tkind, role)
+                    cases.add(cell, "td_forward", lambda: cases_td_forward(cuqi, cfg, plist, a, d, q, cell), cfg=cfg, plist=plist, a=a, d=d)
 
     # ---- 5. steady state: solver kinds x grid relation x observation map; forward sequences ------------------------------
     k = 0
@@ -1415,23 +1452,26 @@ def run(ctx):
                         plist = [gen_p(rng, npar) for _ in range(2)]
                         if sk.startswith("fake") or all(well_conditioned(cfg, x) for x in plist + [[2 * v + 1 for v in x] for x in plist]):
                             break
-                    cases.append(case_ss_direct(cuqi, cfg, plist[0], "ss/direct/%s/%s/%s" % (sk, rel, om[0])))
+                    cell = "ss/direct/%s/%s/%s" % (sk, rel, om[0])
+                    cases.add(cell, "ss_direct", lambda: case_ss_direct(cuqi, cfg, plist[0], cell), cfg=cfg, p=plist[0], assembled=True)
                     if k % 3 == 0:
                         a, d = rng.choice([(1, 0), (2, 1)])
-                        cases += cases_ss_forward(cuqi, cfg, plist, a, d, "ss/forward/%s/%s" % (sk, rel))
+                        cell = "ss/forward/%s/%s" % (sk, rel)
+                        cases.add(cell, "ss_forward", lambda: cases_ss_forward(cuqi, cfg, plist, a, d, cell), cfg=cfg, plist=plist, a=a, d=d)
         cfg = {"steady": True, "af": gen_af(rng, 3, 2, "source", False, steady=True), "solver": "fake", "tag": 0, "gsol": None, "gobs": None, "omap": ["none"]}
-        cases.append(case_ss_direct(cuqi, cfg, gen_p(rng, 2), "ss/not-assembled", assembled=False))
+        p = gen_p(rng, 2)
+        cases.add("ss/not-assembled", "ss_direct", lambda: case_ss_direct(cuqi, cfg, p, "ss/not-assembled", assembled=False), cfg=cfg, p=p, assembled=False)
 
     # ---- 6. grids bookkeeping, gradient dispatch, shipped test problems ---------------------------------------------------
     for _ in range(ctx.n(40, 400)):
-        cases.append(case_grids(cuqi, rng, rng.randint(3, 5)))
+        cases.add("grids/setters", "grids", lambda: case_grids(cuqi, rng, rng.randint(3, 5)))
     for _ in range(ctx.n(3, 25)):
         for hg in (True, False):
             for hj in (True, False):
                 for steady in (True, False):
-                    cases.append(case_gradient(cuqi, rng, hg, hj, steady))
-    cases += cases_testproblems(cuqi, ctx, q)
-    return Result(cases=cases, rule=RULE,
+                    cases.add("gradient", "gradient", lambda: case_gradient(cuqi, rng, hg, hj, steady))
+    cases_testproblems(cuqi, ctx, q, cases)
+    return Result(cases=list(cases), rule=RULE,
                   extra={"tree_state": q},
                   assumptions=["real linear solvers (scipy.linalg.solve, user solvers) enter the model as the table of the calls they answered; "
                                "the law A x = b is checked on every entry to 1e-9 per component",
@@ -1458,6 +1498,18 @@ def oracle(ctx, meta):
     if k == "ss_direct":
         f = oracle_ss(meta["cfg"], meta["p"], drive_ss_direct(cuqi, meta["cfg"], meta["p"], assemble=meta["assembled"]), meta["assembled"])
         return f[0] if f else None
+    cs = []
+    if k == "td_forward":
+        cs = cases_td_forward(cuqi, meta["cfg"], meta["plist"], meta["a"], meta["d"], q, "oracle")
+    elif k == "ss_forward":
+        cs = cases_ss_forward(cuqi, meta["cfg"], meta["plist"], meta["a"], meta["d"], "oracle")
+    elif k == "tp_poisson":
+        cs = [case_tp_poisson(cuqi, q, meta["dim"], meta["ogm"], meta["x"])]
+    elif k == "tp_heat":
+        cs = [case_tp_heat(cuqi, q, meta["dim"], meta["max_time"], meta["ogm"], meta["x"])]
+    for c in cs:
+        if c.impl_fail:
+            return c.impl_fail
     return None
 
 
